@@ -645,7 +645,7 @@ func (e *containerExec) one(s *CStep) {
 	relaxed := false
 	textFlip := -1
 	fault := s.Fault
-	if n == 0 && fault != "" && fault != "trunc" && fault != "trailing" && fault != "text_flip" && fault != "version_flip" && fault != "hostile_len" && fault != "bad_frame" {
+	if n == 0 && fault != "" && fault != "trunc" && fault != "trailing" && fault != "text_flip" && fault != "edge_trunc" && fault != "edge_bad" && fault != "version_flip" && fault != "hostile_len" && fault != "bad_frame" {
 		fault = "trunc"
 	}
 	idx := 0
@@ -805,6 +805,45 @@ func (e *containerExec) one(s *CStep) {
 	} else if fault == "text_flip" {
 		wire = flipBit(out, s.Pos)
 	}
+	if (fault == "edge_trunc" || fault == "edge_bad") && len(wire) > 0 {
+		// damage right at a structural boundary of the delivered form: the end of the CAR header
+		// or of a block (preferring one that falls on a base64 quantum), in the text of the base64
+		// forms a few characters either side of the quantum that holds the boundary
+		bounds := []int{len(out)}
+		if isCar {
+			bounds = car.Boundaries()
+			var aligned []int
+			for _, b := range bounds {
+				if b%3 == 0 {
+					aligned = append(aligned, b)
+				}
+			}
+			if len(aligned) > 0 && s.Pos%4 != 0 {
+				bounds = aligned
+			}
+		} else if c, err := cbDecodeAll(out); err == nil && c.Major == 5 && len(c.Kids) == 2 && c.Kids[1].Major == 4 {
+			for _, k := range c.Kids[1].Kids {
+				bounds = append(bounds, k.End)
+			}
+		}
+		at := bounds[s.Entry%len(bounds)]
+		if isB64 {
+			at = at / 3 * 4
+		}
+		at += (s.Pos/4)%9 - 4
+		if at < 0 {
+			at = 0
+		}
+		if at >= len(wire) {
+			at = len(wire) - 1
+		}
+		if fault == "edge_trunc" {
+			wire = append([]byte{}, wire[:at]...)
+		} else {
+			wire = append([]byte{}, wire...)
+			wire[at] = []byte{'!', '=', '-', '_', 0x00, ' ', '\n', 0xff}[(s.Pos/64)%8]
+		}
+	}
 	if fault != "" {
 		o.Fault("container_" + fault)
 	}
@@ -888,7 +927,7 @@ func genContainer(r *Rand, g GenCfg) Plan {
 	for i := r.Range(1, 3); i > 0; i-- {
 		p.Steps = append(p.Steps, CStep{Op: "roundtrip", Format: Pick(r, containerAPIs()), WStream: r.Chance(0.5), RStream: r.Chance(0.5), Chunks: mkChunks(), Perm: r.Perm(n)})
 	}
-	faults := []string{"bad_frame", "hostile_len", "data_flip", "data_flip", "data_flip_relabel", "data_flip_relabel", "cid_flip", "swap_cids", "foreign_entry", "dup_entry", "drop_byte", "len_flip", "version_flip", "trunc", "trailing", "text_flip"}
+	faults := []string{"bad_frame", "hostile_len", "data_flip", "data_flip", "data_flip_relabel", "data_flip_relabel", "cid_flip", "swap_cids", "foreign_entry", "dup_entry", "drop_byte", "len_flip", "version_flip", "trunc", "trailing", "text_flip", "edge_trunc", "edge_trunc", "edge_bad", "edge_bad"}
 	for i := r.Range(2, 12); i > 0; i-- {
 		pos := r.Intn(1 << 13)
 		if r.Chance(0.3) {
